@@ -126,10 +126,10 @@ func EqualValues(a, b Value, tol Tolerance) bool {
 type propKind uint8
 
 const (
-	pkOpaque propKind = iota
-	pkLength          // <length-percentage>
-	pkLengthAuto      // <length-percentage> | auto
-	pkBorderWidth     // <length> | thin | medium | thick
+	pkOpaque      propKind = iota
+	pkLength               // <length-percentage>
+	pkLengthAuto           // <length-percentage> | auto
+	pkBorderWidth          // <length> | thin | medium | thick
 	pkBorderStyle
 	pkColor
 	pkRadius // <length-percentage>{1,2}
